@@ -67,7 +67,7 @@ def send(table, cfg, srv, m):
         env = {'REQUEST_METHOD': 'GET', 'PATH_INFO': '/f', 'QUERY_STRING': q}
         fam = 'http'
     else:
-        doc = Z.dict_request(table, m, wrappers=(g == 'wrap'))
+        doc = Z.dict_request(table, m, wrappers=(g == 'wrap'), binary=cfg['fam'].startswith('msgpack'))
         body = D.dumps(cfg['fam'], doc)
         env = {'REQUEST_METHOD': 'POST', 'PATH_INFO': '/', 'QUERY_STRING': '', 'CONTENT_TYPE': D.CT[cfg['fam']]}
         fam = cfg['fam']
@@ -94,7 +94,7 @@ def prime(cfg, srv):
 
 def mutant_class(m):
     t = m['pos']['t']
-    tn = t.get('p') or t.get('name') or ('Array(%s)' % (t['of'].get('p') or t['of'].get('name')))
+    tn = t.get('p') or t.get('name') or ('%s(%s)' % ('Attr' if t['k'] == 'attr' else 'Array', t['of'].get('p') or t['of'].get('name')))
     return '%s|at=%s:%s|%s' % (m['op'], '.'.join(m['pos']['path']), tn, ':'.join(a for a in m['arg'] if a))
 
 
